@@ -313,6 +313,40 @@ def run(ctx):
             # default evaluation point (cell centre)
             U = dy(rng, nf)
             add(f"f2c {S} {lst([0.5] * dim)} {lst(U)}", lambda: rats(np.stack([d.face_to_cell(g, U)[..., a].ravel('F') for a in range(dim)], axis=1)))
+    # every accepted form of the voxel-size argument: scalar float / int, default, list, tuple, ndarray (the model gets the
+    # per-axis list the documentation promises: a scalar h means h in every direction)
+    forms = 0
+    for shape in [(3,), (3, 4), (1, 5), (2, 3, 2), (4, 1, 2)] + [tuple(rng.randint(1, 4) for _ in range(rng.choice((2, 3)))) for _ in range(ctx.pick(4, 20))]:
+        dim = len(shape)
+        hv = rng.choice((0.25, 0.5, 2.0, 1.5))
+        aniso = [rng.choice(DYADIC_H) for _ in range(dim)]
+        for tag, arg, hs in (("scalar", hv, [hv] * dim), ("int", 2, [2.0] * dim), ("default", None, [1.0] * dim), ("list", list(aniso), aniso),
+                             ("ndarray", np.array(aniso), aniso), ("tuple", tuple(aniso), aniso)):
+            g = call(d.Grid, tuple(shape)) if arg is None else call(d.Grid, tuple(shape), arg)
+            rp = {"shape": list(shape), "voxel_size_argument": tag, "value": None if arg is None else np.asarray(arg).tolist()}
+            if isinstance(g, Raised):
+                if tag in ("scalar", "int", "default", "list"):
+                    ctx.fail(f"C06:Grid:voxel_size={tag}:raises:dim={dim}", f"Grid({shape}, voxel_size={rp['value']}) raises {g}", rp)
+                continue
+            forms += 1
+            ctx.count(("vs-form", shape, tag, tuple(hs)))
+            S, H = shape_tok(shape), lst(hs)
+            U = dy(rng, int(g.num_faces))
+            add(f"divmat {S} {H}", lambda: impl_divmat(d, g))
+            add(f"mass {S} {H}", lambda: impl_mass(d, g))
+            add(f"div {S} {H} {lst(U)} 1", lambda: impl_div(d, g, U))
+            # statement on the implementation: mass = prod of the per-axis voxel sizes
+            try:
+                v = float(np.prod(hs))
+                for mode, n in (("cells", int(g.num_cells)), ("faces", int(g.num_faces))):
+                    M = np.asarray(d.FVMass(g, mode).mat.toarray())
+                    if M.shape != (n, n) or not np.array_equal(M, v * np.eye(n)):
+                        ctx.fail(f"C06:mass_diag:{mode}:voxel_size={tag}:dim={dim}", f"Grid({shape}, voxel_size={rp['value']}): FVMass({mode}) diagonal "
+                                 f"{(np.diag(M)[:1].tolist() if n else [])} is not the voxel volume {v}", rp)
+                        break
+            except Exception as e:  # noqa: BLE001
+                ctx.fail(f"C06:mass_diag:raises:voxel_size={tag}:dim={dim}", f"{type(e).__name__}: {e}", rp)
+    ctx.cov["voxel_size_argument_forms"] = forms
     ctx.correspond("fv-operators-exact", lines, impl)
 
     # harmonic mean: numeric comparison (scipy's hmean divides, so not exact even on dyadic data)
@@ -384,6 +418,20 @@ def replay(data):
 
     c = C()
     rng = random.Random(0)
+    if "voxel_size_argument" in rp:
+        shape, val = tuple(rp["shape"]), rp.get("value")
+        g = call(d.Grid, shape) if val is None else call(d.Grid, shape, val if np.ndim(val) == 0 else list(val))
+        hs = [1.0] * len(shape) if val is None else ([float(val)] * len(shape) if np.ndim(val) == 0 else list(val))
+        if isinstance(g, Raised):
+            print("observed: Grid raises", g)
+            return 1
+        for mode in ("cells", "faces"):
+            M = np.asarray(d.FVMass(g, mode).mat.toarray())
+            diag = np.diag(M)
+            print(f"observed: FVMass({mode}) diagonal {diag[:1].tolist()}  required: voxel volume {float(np.prod(hs))}")
+            if len(diag) and not np.all(diag == float(np.prod(hs))):
+                c.failures.append(("mass", mode))
+        return 1 if c.failures else 0
     for exact in (True, False):
         for _ in range(5):
             hs = rp.get("voxel_size") or [1.0] * len(rp["shape"])
